@@ -47,10 +47,21 @@ def concrete_text(p):
     if sp is None:
         return None
     v = p.value
+    if hasattr(v, "parts") and not isinstance(v, str):
+        # formatted text formatted again ("%5s" % f"{b:5.2f}"): its characters, when they are known
+        inner = TText(v.parts).literal() if "TText" in globals() else None
+        if inner is None:
+            return None
+        v = inner
     if isinstance(v, Rat):
         c = v.const_value()
         if c is not None and c.denominator == 1 and sp["type"] in ("d", "", "i"):
             v = int(c)
+        elif c is not None and sp["type"] in ("f", "F", "e", "E", "g", "G"):
+            try:
+                return format(float(c), ("-" if sp["align"] == "-" else sp["align"] or "") .replace("-", "<") + ("%d" % sp["width"] if sp["width"] else "") + ("" if sp["prec"] is None else ".%d" % sp["prec"]) + sp["type"])
+            except ValueError:
+                return None
     if isinstance(v, bool):
         return None
     if isinstance(v, int) and sp["type"] in ("d", "", "i", "s"):
@@ -329,6 +340,9 @@ class TText:
         return None
 
     def contains(self, lit):
+        r = self._contains_by_alignment(lit)
+        if r is not None:
+            return r
         for p in self.parts:
             s = p if isinstance(p, str) else (concrete_text(p) if not isinstance(p, Cut) else None)
             if s is not None and lit in s:
@@ -355,6 +369,41 @@ class TText:
             if strange and not any(strange[0] in (p if isinstance(p, str) else (concrete_text(p) or "")) for p in self.parts if not isinstance(p, Cut)):
                 return False
         raise Unsupported("whether %r occurs in %r" % (lit, self))
+
+    def _contains_by_alignment(self, lit):
+        """True / False / None: every way of laying `lit` over the columns of the text (all widths known); a column of a formatted number can only
+        hold a character a number is written with"""
+        pat = []
+        for p in self.parts:
+            s_ = p if isinstance(p, str) else (concrete_text(p) if not isinstance(p, Cut) else None)
+            if s_ is not None:
+                pat.extend(s_)
+                continue
+            w = width(p)
+            if w is None:
+                return None
+            pat.extend([None] * w)
+        numchars = set("0123456789.+-eE infaINFA")
+        sure = possible = False
+        for off in range(0, len(pat) - len(lit) + 1):
+            ok, exact = True, True
+            for k, ch in enumerate(lit):
+                c = pat[off + k]
+                if c is None:
+                    exact = False
+                    if ch not in numchars:
+                        ok = False
+                        break
+                elif c != ch:
+                    ok = False
+                    break
+            if ok and exact:
+                sure = True
+                break
+            possible = possible or ok
+        if sure:
+            return True
+        return None if possible else False
 
     def startswith(self, lit):
         buf = ""
